@@ -472,24 +472,7 @@ pub fn c12(c: &mut Collector, seed: u64, shard: u64, nshards: u64, thorough: boo
     let mut positions = engine_positions(seed, shard, nshards, n_random, true);
     // classic mates in one (both colours via mirror)
     if shard == 0 {
-        for fen in [
-            "6k1/5ppp/8/8/8/8/8/R3K3 w Q - 0 1",
-            "r1bqkb1r/pppp1ppp/2n2n2/4p2Q/2B1P3/8/PPPP1PPP/RNB1K1NR w KQkq - 4 4",
-            "6rk/6pp/7N/8/8/8/8/6K1 w - - 0 1",
-            "k7/8/1K6/8/8/8/8/7R w - - 0 1",
-            "7k/8/5K2/8/8/8/8/6Q1 w - - 0 1",
-            "5rk1/5ppp/8/8/8/8/1B6/K5R1 w - - 0 1",
-            "k7/2P5/1K6/8/8/8/8/8 w - - 0 1",
-            "7k/4P1pp/8/8/8/8/8/K4R2 w - - 0 1",
-            "8/8/8/8/8/6k1/4r3/r3K2R w K - 0 1",
-            "r3k3/8/8/8/8/8/1R6/4K2k b q - 0 1",
-            "4k3/8/8/8/8/8/5PPP/r5K1 b - - 0 1",
-            "3k4/8/3K4/8/8/8/8/R7 w - - 0 1",
-            "k1K5/8/8/8/8/8/8/1R6 w - - 0 1",
-            "kbK5/pp6/1P6/8/8/8/8/R7 w - - 0 1",
-            "2k5/8/2K5/8/8/8/8/3R3R w - - 0 1",
-            "7k/5p1p/5PpP/6P1/8/8/8/K1B5 w - - 0 1",
-        ] {
+        for fen in workload::CLASSIC_MATES.iter().copied() {
             if let Ok(p) = Position::from_fen(fen) {
                 if p.chess_root_ok().is_ok() {
                     positions.push(EnginePos { label: "classic-mate", pos: p.mirror(), history: vec![] });
